@@ -226,7 +226,7 @@ func isSym(v Value) bool {
 
 // Describe renders a value for evidence samples and diagnostics.
 func Describe(v Value, depth int) string {
-	if depth > 6 {
+	if depth > 14 {
 		return "…"
 	}
 	switch x := v.(type) {
